@@ -27,12 +27,13 @@ using namespace muscle;
 
 class Obj : public RefCountable {
 public:
-   Obj() : state(0), serial(0) {}
-   Obj & operator=(const Obj & rhs) {state = rhs.state; serial = rhs.serial; next = rhs.next; return *this;}
-   int state; int serial; Ref<Obj> next;     // next: a member Ref, so that objects form chains (recycling one may recycle the next)
+   Obj() : state(0), serial(0), heap(false) {}
+   ~Obj();
+   Obj & operator=(const Obj & rhs) {state = rhs.state; serial = rhs.serial; next = rhs.next; return *this;}     // (heap is an attribute of the object, not of its value)
+   int state; int serial; bool heap; Ref<Obj> next;     // next: a member Ref, so that objects form chains (recycling one may recycle the next)
 };
 DECLARE_REFTYPES(Obj);
-typedef ObjectPool<Obj, 128> Pool2;  typedef ObjectPool<Obj, 176> Pool3;
+typedef ObjectPool<Obj, 144> Pool2;  typedef ObjectPool<Obj, 200> Pool3;
 #ifndef VERIF_NO_PRIVATE
 static_assert(Pool2::NUM_OBJECTS_PER_SLAB == 2, "slab size for 2 objects"); static_assert(Pool3::NUM_OBJECTS_PER_SLAB == 3, "slab size for 3 objects");
 #endif
@@ -112,10 +113,13 @@ static int ObjId(const Obj * o) {std::map<const void *, int>::iterator it = g_ob
 #endif
    return id;}
 static void TLine(const char * e, int o) {if (g_record) {char b[96]; snprintf(b, sizeof(b), "{\"e\":\"%s\",\"t\":%d,\"o\":%d}", e, vs::tl_id+1, o); g_lines.push_back(b);}}
+Obj :: ~Obj() {if (heap) {if (state != 42) Bad("a heap-allocated object was destroyed twice"); state = 7; TLine("Delete", ObjId(this));}}
 class TracedPool : public Pool3 {
 public:
    TracedPool(uint32 maxPool) : Pool3(maxPool) {}
-   virtual void RecycleObject(void * obj) {Obj * o = (Obj *) obj; if (o->state != 42) Bad("an object was recycled twice (it is not live)"); o->state = 7; TLine("Recycle", ObjId(o)); Pool3::RecycleObject(obj);}
+   virtual void RecycleObject(void * obj) {Obj * o = (Obj *) obj;
+      if (o->heap) {Bad("a heap-allocated copy of a pooled object was handed to the pool's RecycleObject() instead of being deleted"); o->state = 7; TLine("Recycle", ObjId(o)); return;}     // (not passed on: the pool would corrupt itself)
+      if (o->state != 42) Bad("an object was recycled twice (it is not live)"); o->state = 7; TLine("Recycle", ObjId(o)); Pool3::RecycleObject(obj);}
 };
 static void ObserveResume(vs::LThread * me, int kind, const void * obj, int)
 {
@@ -133,7 +137,7 @@ static void Worker(TracedPool * pool, Mailbox * mb, unsigned seed, int nOps, boo
       #define CHECK(r) do {if (((r)())&&((r)()->state != 42)) Bad("a referenced object was recycled (released early)");} while(0)
       for (int k=0; k<nOps; k++) {
          const int a = (int)(gen()%3), b = (int)(gen()%3);
-         switch(gen()%(chains ? 13 : 10)) {
+         switch(gen()%(chains ? 14 : 11)) {
             case 0: {Obj * o = pool->ObtainObject(); if (o) {if (o->state != 0) Bad("pool handed out an object that is not in the default state"); o->state = 42; o->serial = ++g_serial; TLine("Obtain", ObjId(o)); slots[a] = ObjRef(o);}} break;
             case 1: CHECK(slots[b]); slots[a] = slots[b]; break;
             case 2: slots[a].Reset(); break;
@@ -144,9 +148,10 @@ static void Worker(TracedPool * pool, Mailbox * mb, unsigned seed, int nOps, boo
             case 7: {ObjRef moved(std::move(slots[a])); CHECK(moved); slots[b] = std::move(moved);} break;
             case 8: if (slots[a]()) {ObjRef alias; alias.SetRef(slots[a](), false); alias.SetRef(slots[a](), true); CHECK(alias);} break;                    // a non-counting alias starts counting (same item): +1, and -1 when it dies
             case 9: if (slots[a]()) {ObjRef alias(slots[a]); alias.SetRef(slots[a](), false); CHECK(alias);} break;                             // a counting alias stops counting (same item): -1 now, nothing when it dies
+            case 10: if (slots[b]()) {Obj * h = new Obj(*slots[b]()); h->heap = true; h->serial = ++g_serial; TLine("Alloc", ObjId(h)); slots[a] = ObjRef(h);} break;      // a heap copy of a (pooled or heap) object: deleted, never recycled
             // chains (single-threaded runs only: a Ref is not itself thread-safe)
-            case 10: if (slots[a]()) {bool cyc = false; for (Obj * p = slots[b](); p; p = p->next()) if (p == slots[a]()) {cyc = true; break;} if (!cyc) slots[a]()->next = slots[b];} break;   // obj.next := slot
-            case 11: case 12: if (slots[a]()) slots[a] = slots[a]()->next; break;                                                                                                   // pop the head: slot := slot->next
+            case 11: if (slots[a]()) {bool cyc = false; for (Obj * p = slots[b](); p; p = p->next()) if (p == slots[a]()) {cyc = true; break;} if (!cyc) slots[a]()->next = slots[b];} break;   // obj.next := slot
+            case 12: case 13: if (slots[a]()) slots[a] = slots[a]()->next; break;                                                                                                   // pop the head: slot := slot->next
          }
          for (int i=0; i<3; i++) {CHECK(slots[i]); if (chains) {int n = 0; for (Obj * p = slots[i](); (p)&&(n < 100); p = p->next(), n++) if (p->state != 42) {Bad("an object that is still referenced by another object's member reference was recycled (released early)"); break;}}}
       }
